@@ -98,6 +98,9 @@ PROPS["C06"] = dict(
 
 def _corrupt_map(e):
     o = e["out"]
+    if e["op"] == "encode_fail":
+        o["res"] = "ok"
+        return e["args"]["at"] < e["args"]["len"]
     if e["op"] == "roundtrip":
         p2 = o["p2"]
         if p2.get("toks"):
